@@ -116,7 +116,8 @@ def run(tier, seed, replay):
                 "documents (string/list/byte values, bounds, center, vector_layers) x coverage classes x {versatiles, pmtiles, tar, directory} "
                 "are written by the real writers and read back. non-trivial = string with a character that needs care, composite value, or "
                 "TileJSON container case")
-    run.extra = {"cases": s["cases"], "served_tiles_json_documents": getattr(run, "extra_served", 0),
+    run.extra = {"cases": s["cases"], "pmtiles_root_limit_cases (document next to tile sets at the writer's root-directory limit)": s.get("pmtiles_root_limit_cases"),
+                 "served_tiles_json_documents": getattr(run, "extra_served", 0),
                  "tilejson_object_state_machine (beyond the property; observations only)": tjobj}
     run.assumptions = ["serde_json is the independent standard parser", "numbers are compared as f64 values (canonical {:e} text)",
                        "the served tiles.json is fetched from the real binary for every source x server instance (Server.tla TilesJsonFails)"]
